@@ -7,7 +7,7 @@ import PPModel.Mod.Entry
     entry ∈ parse | parseAll | scan | search | transform | split
     node  = (<kind> <skipWs> "<white>" <callPre> <mayIdx> (<ignore ids>) (<acts>) <callDuringTry> <nameLen> <hasName>)
 -/
-namespace PP.Driver
+namespace PP.Driver.PD
 open PP PP.Sexp PP.Parse
 
 def chars? : Sexp → Option (List Char)
@@ -151,4 +151,8 @@ def parseHandle : List Sexp → Option Sexp
       | _, _ => none
   | _ => none
 
+end PP.Driver.PD
+
+namespace PP.Driver
+def parseHandle := PD.parseHandle
 end PP.Driver
